@@ -153,8 +153,14 @@ def correspond(ctx):
                     shp = slide.shapes.add_shape(MSO_SHAPE.RECTANGLE, 0, 0, 100, 100)
                 else:
                     shp = slide.shapes.add_textbox(0, 0, 100, 100)
+                bodyless = rng.random() < 0.12
+                if bodyless:
+                    # a p:sp without a p:txBody (other producers omit it; so do picture/chart/table placeholders): the
+                    # text frame is created on first access
+                    shp._element.remove(shp._element.txBody)
+                    ctx.count("shape-without-txBody")
                 tf = shp.text_frame
-                c.prior = prior_state(rng, tf)
+                c.prior = prior_state(rng, tf) + ("+no-txBody" if bodyless else "")
                 c.loc = ("shape", prs.slides.index(slide), len(slide.shapes) - 1)
                 if level in ("frame", "shape"):
                     hist = rng.random()
@@ -257,6 +263,9 @@ def correspond(ctx):
                 if got != c.read or gskel != c.skel:
                     ctx.fail(f"reopen:{c.level}", f"{c.level}-level text {c.s!r}: read {c.read!r} before save, {got!r} after {cycles} save/re-open cycle(s)",
                              {"level": c.level, "s": c.s, "prior": c.prior, "cycles": cycles})
+            elif c.k >= len(tf.paragraphs):
+                ctx.fail(f"reopen:{c.level}", f"{c.level}-level text {c.s!r} was in paragraph {c.k}; the re-opened frame has {len(tf.paragraphs)} paragraph(s)",
+                         {"level": c.level, "s": c.s, "prior": c.prior, "cycles": cycles})
             elif c.level == "para":
                 p = tf.paragraphs[c.k]
                 if p.text != c.read or skeleton(p._p) != c.skel:
